@@ -14,8 +14,12 @@ EXTENDS BasicMachine, Json, IOUtils
 
 Rec == ndJsonDeserialize(IOEnv.TRACE)
 
-VARIABLES ci, l, m, ph, nint
-tvars == <<ci, l, m, ph, nint>>
+VARIABLES ci, l, m, ph, nint, hi
+tvars == <<ci, l, m, ph, nint, hi>>
+
+\* the sessions are validated in independent chunks so that TLC's workers share the load
+Chunk == IF "CHUNK" \in DOMAIN IOEnv THEN atoi(IOEnv.CHUNK) ELSE 100000000
+ChunkStarts == {i \in 1..Len(Rec) : (i - 1) % Chunk = 0}
 
 Case == Rec[ci]
 Cur  == Case.cmds[l]
@@ -67,28 +71,29 @@ Apply(mm, c) ==
     [] c.k = "reply"  -> Reply(mm, c.s)
     [] c.k = "int"    -> Interrupt([mm EXCEPT !.resp = <<>>])
 
-Init == ci = 1 /\ l = 1 /\ m = InitM /\ ph = "feed" /\ nint = 0
+Init == /\ ci \in ChunkStarts /\ hi = (IF ci + Chunk - 1 < Len(Rec) THEN ci + Chunk - 1 ELSE Len(Rec))
+        /\ l = 1 /\ m = InitM /\ ph = "feed" /\ nint = 0
 
-Feed == /\ ph = "feed" /\ ci <= Len(Rec) /\ l <= Len(Case.cmds)
-        /\ m' = Apply(m, Cur.cmd) /\ ph' = "run" /\ nint' = 0 /\ UNCHANGED <<ci, l>>
+Feed == /\ ph = "feed" /\ ci <= hi /\ l <= Len(Case.cmds)
+        /\ m' = Apply(m, Cur.cmd) /\ ph' = "run" /\ nint' = 0 /\ UNCHANGED <<ci, l, hi>>
 
 Run  == /\ ph = "run" /\ m.mode = "run"
-        /\ m' = Step(m) /\ UNCHANGED <<ci, l, ph, nint>>
+        /\ m' = Step(m) /\ UNCHANGED <<ci, l, ph, nint, hi>>
 
 \* an interrupt delivered while the command was executing: after exactly the recorded output
 Intr == /\ ph = "run" /\ m.mode = "run" /\ nint < Cur.ints
         /\ OutSoFar(m) = Cur.intpre
-        /\ m' = Interrupt(m) /\ nint' = nint + 1 /\ UNCHANGED <<ci, l, ph>>
+        /\ m' = Interrupt(m) /\ nint' = nint + 1 /\ UNCHANGED <<ci, l, ph, hi>>
 
 AtWait == ph = "run" /\ m.mode \in {"ready", "input"}
 Good  == nint = Cur.ints /\ RespOK(m.resp, Cur.resp) /\ ProbeOK(m, Cur.probe)
 
 Match == /\ AtWait /\ Good
-         /\ l' = l + 1 /\ ph' = "feed" /\ UNCHANGED <<ci, m, nint>>
+         /\ l' = l + 1 /\ ph' = "feed" /\ UNCHANGED <<ci, m, nint, hi>>
 
-NextCase == /\ ph = "feed" /\ ci <= Len(Rec) /\ l > Len(Case.cmds)
+NextCase == /\ ph = "feed" /\ ci <= hi /\ l > Len(Case.cmds)
             /\ PrintT(ToJson([T |-> "ACCEPT", id |-> Case.id]))
-            /\ ci' = ci + 1 /\ l' = 1 /\ m' = InitM /\ ph' = "feed" /\ nint' = 0
+            /\ ci' = ci + 1 /\ l' = 1 /\ m' = InitM /\ ph' = "feed" /\ nint' = 0 /\ UNCHANGED hi
 
 \* this branch cannot explain the trace: say why, and go on with the next session
 Stuck == /\ AtWait /\ ~Good
@@ -98,12 +103,17 @@ Stuck == /\ AtWait /\ ~Good
                       ctl |-> m.ctl, dims |-> {<<a, m.dims[a]>> : a \in DOMAIN m.dims},
                       dptr |-> m.dptr, cont |-> m.cont, contx |-> m.contx, mode |-> m.mode,
                       col |-> m.col, tron |-> m.tron, fns |-> DOMAIN m.fns]))
-         /\ ci' = ci + 1 /\ l' = 1 /\ m' = InitM /\ ph' = "feed" /\ nint' = 0
+         /\ ci' = ci + 1 /\ l' = 1 /\ m' = InitM /\ ph' = "feed" /\ nint' = 0 /\ UNCHANGED hi
 
 \* the session left the fragment the model defines: discard it (counted, never failed)
 Discard == /\ ph = "run" /\ m.mode = "oom"
            /\ PrintT(ToJson([T |-> "SKIP", id |-> Case.id, l |-> l, why |-> m.why]))
-           /\ ci' = ci + 1 /\ l' = 1 /\ m' = InitM /\ ph' = "feed" /\ nint' = 0
+           /\ ci' = ci + 1 /\ l' = 1 /\ m' = InitM /\ ph' = "feed" /\ nint' = 0 /\ UNCHANGED hi
+
+\* fingerprint only what is not a function of the commands consumed so far (the listing and its
+\* analysis are determined by ci and l)
+View == <<ci, l, ph, nint, hi, m.mode, m.pc, m.vars, m.dims, m.deft, m.fns, m.ctl, m.dptr, m.col,
+          m.tron, m.ltr, m.cont, m.contx, m.ctlx, m.inp, m.resp>>
 
 Next == Feed \/ Run \/ Intr \/ Match \/ NextCase \/ Stuck \/ Discard
 Spec == Init /\ [][Next]_tvars
